@@ -1,6 +1,142 @@
 """Positive controls: detectors whose expected count on rs-store is zero must fire on the fixture
-crate (filled in by attach)."""
+crate (/verif/fixtures) in every check run; otherwise the check fails (a detector that cannot see
+anything would pass vacuously forever)."""
+import json
+import os
+import shutil
+import subprocess
+import tempfile
+
+from mirq.program import Program, Site
+from mirq.locks import LockRegions, LOCK_CALLS
+from mirq.supergraph import Super
+
+ROOT = os.path.dirname(os.path.dirname(os.path.abspath(__file__)))
+FIX = os.path.join(ROOT, "fixtures")
+_cache = {}
+
+
+def fixture_facts():
+    """facts of the fixture crate; extracted on demand (same driver, same flags)"""
+    out = os.path.join(FIX, "facts.json")
+    src = os.path.join(FIX, "src", "lib.rs")
+    if os.path.exists(out) and os.path.getmtime(out) >= os.path.getmtime(src):
+        return out
+    sysroot = subprocess.run(["rustc", "+nightly", "--print", "sysroot"], stdout=subprocess.PIPE, text=True).stdout.strip()
+    tgt = tempfile.mkdtemp(prefix="mirq-fx-")
+    env = dict(os.environ)
+    env["LD_LIBRARY_PATH"] = os.path.join(sysroot, "lib") + ":" + env.get("LD_LIBRARY_PATH", "")
+    env["RUSTFLAGS"] = "-Zmir-opt-level=0 -Awarnings"
+    env["RUSTC_WORKSPACE_WRAPPER"] = os.path.join(ROOT, "driver", "target", "release", "mirq-driver")
+    env["MIRQ_OUT"] = out
+    env["MIRQ_CRATE"] = "mirq_fixture"
+    env["CARGO_TARGET_DIR"] = tgt
+    env["CARGO_NET_OFFLINE"] = "true"
+    try:
+        r = subprocess.run(["cargo", "+nightly", "check", "--offline", "--lib", "--quiet"], cwd=FIX, env=env, stdout=subprocess.PIPE, stderr=subprocess.STDOUT, text=True)
+    finally:
+        shutil.rmtree(tgt, ignore_errors=True)
+    if r.returncode != 0 or not os.path.exists(out):
+        raise RuntimeError("fixture crate could not be analysed: " + r.stdout[-400:])
+    return out
+
+
+def fixture_program():
+    if "prog" not in _cache:
+        _cache["prog"] = Program(fixture_facts())
+    return _cache["prog"]
+
+
+# ---- generic detectors (shared with the rule packs) ---------------------------------------------
+def find_cycles(edges):
+    """edges: iterable of (a, b); returns (self edges, simple cycles as tuples)"""
+    g = {}
+    for a, b in edges:
+        g.setdefault(a, set()).add(b)
+    selfs = sorted({a for a, b in edges if a == b})
+    cyc = set()
+    nodes = set(g) | {b for v in g.values() for b in v}
+    for start in sorted(nodes):
+        stack = [(start, [start])]
+        while stack:
+            x, path = stack.pop()
+            for y in g.get(x, ()):
+                if y == start and len(path) > 1:
+                    c = path[:]
+                    i = c.index(min(c))
+                    cyc.add(tuple(c[i:] + c[:i]))
+                elif y not in path and len(path) < 8:
+                    stack.append((y, path + [y]))
+    return selfs, sorted(cyc)
+
+
+def generic_lock_edges(prog):
+    """lock-order edges over inlined call graphs rooted at every non-closure body"""
+    lrs = {}
+
+    def lr(b):
+        if b.path not in lrs:
+            lrs[b.path] = LockRegions(prog, b)
+        return lrs[b.path]
+
+    edges = []
+    for root in prog.bodies:
+        if root.is_closure():
+            continue
+        G = Super(prog, root, max_depth=8)
+        for k, n in G.nodes.items():
+            t = n.body.blocks[n.bb]["term"]
+            if t["k"] != "call":
+                continue
+            s = Site(n.body, n.bb, t)
+            if s.ck not in LOCK_CALLS:
+                continue
+            may, _ = lr(n.body).held_at(n.bb)
+            held = set(may)
+            for cs in k[0]:
+                cb = prog.by_path[cs[0]]
+                m1, _ = lr(cb).held_at(cs[1])
+                held |= m1
+            lid = lr(n.body).lock_id_fn(prog, n.body, prog.bp(n.body).arg_term(n.bb, 0), s.fn)
+            for h in held:
+                edges.append((h, lid))
+    return edges
+
+
+def control_in1(rep, tier):
+    from rules import indep
+    from mirq.report import Report
+    prog = fixture_program()
+
+    class C:  # minimal ctx for the detector
+        pass
+
+    c = C()
+    c.prog = prog
+    c.where = lambda body, bb=None, idx="term": body.path
+    tmp = Report("ctl")
+    indep.in1_no_process_wide_state(c, tmp, floor_sites=1)
+    keys = [i.key for i in tmp.violations()]
+    want = {
+        "static item": any(k.startswith("IN1:static-item:GLOBAL_COUNTER") for k in keys),
+        "thread_local item": any("static-item:__RUST_STD_INTERNAL_VAL" in k or "thread-local-access" in k for k in keys),
+        "thread-local access": any("thread-local-access" in k or "process-global-api" in k and ":with" in k for k in keys),
+        "user-written unsafe call": any(k.startswith("IN1:unsafe-call:") for k in keys),
+        "process-global API": any("process-global-api" in k and "set_var" in k for k in keys),
+    }
+    for what, ok in want.items():
+        rep.check(ok, "CTRL", "IN1-detects:%s" % what, "fixtures/src/lib.rs", "detector fires on the fixture's %s" % what, "detector did NOT fire on the fixture's %s: the rule would pass vacuously" % what)
+
+
+def control_l1(rep, tier):
+    prog = fixture_program()
+    edges = generic_lock_edges(prog)
+    selfs, cyc = find_cycles(edges)
+    rep.check(any(set(c) == {"Pair.a", "Pair.b"} for c in cyc), "CTRL", "L1-detects:inverted-lock-order", "fixtures/src/lib.rs", "cycle finder reports Pair.a <-> Pair.b (taken in both orders, one through a helper)", "cycle finder missed the inverted lock order in the fixture (cycles: %s)" % cyc)
+    rep.check("Pair.a" in selfs, "CTRL", "L1-detects:re-entrant-lock", "fixtures/src/lib.rs", "self edge Pair.a -> Pair.a (re-acquired through a helper) reported", "re-entrant acquisition in the fixture missed (self edges: %s)" % selfs)
+    rep.check(("Pair.a", "Pair.b") in edges and not any(e == ("Pair.b", "Pair.b") for e in edges), "CTRL", "L1-negative:sequential-locks-make-no-edge", "fixtures/src/lib.rs", "sequential (non-nested) acquisitions add no spurious self edge on Pair.b", "spurious edges in the fixture: %s" % sorted(set(edges)))
 
 
 def attach(PROPS):
-    pass
+    PROPS["C19"]["controls"] = [("CTRL", control_in1)]
+    PROPS["C13"]["controls"] = [("CTRL", control_l1)]
